@@ -35,7 +35,7 @@ class ITPDirector(SectionLineParser):
                  'pairs': [0, 1],
                  'pairs_nb': [0, 1],
                  'exclusions': [slice(None, None)],
-                 'virtual_sites1': [0],
+                 'virtual_sites1': [0, 1],
                  'virtual_sites2': [0, 1, 2],
                  'virtual_sites3': [0, 1, 2, 3],
                  'virtual_sites4': [slice(0, 5)],
